@@ -1,10 +1,14 @@
 import CandidModel.Wire
 import CandidModel.Proofs.DeWellFormed
+import CandidModel.Proofs.DeCoerce
+import CandidModel.Proofs.DeCoerceWf
 /-
   C02 — Decoding at an expected type is exactly the specification's coercion.
   The decode/encode round-trip theorems live in Props/C03.lean and Props/C10.lean; here: facts about the coercion
-  relation, the header, and the "only if" half of the property for the decoder mirror (`De`, with its cost
-  accounting and back-tracking): what it accepts is a well-formed message.
+  relation, the header, the "only if" half of the property for the decoder mirror (`De`, with its cost
+  accounting and back-tracking): what it accepts is a well-formed message; and the "if" half at the level of values:
+  what the writer produces for a canonical value is decoded, at every expected type, to exactly the coercion the
+  specification prescribes (`Proofs/DeCoerce`).
 -/
 namespace Candid.Props.C02
 open Candid Candid.Wire
@@ -84,5 +88,195 @@ theorem entry_points_read_one_wire_value (env : Env) (S : List String) (hc : Cle
 /-- non-vacuity: the side conditions hold for closed expected types over an empty caller environment -/
 example : De.CleanCtx ([] : Env) [] ∧ De.cleanTy [] (.opt (.record (.cons (.id 0) (.prim .nat) .nil))) = true := by
   refine ⟨fun x hx => by simp at hx, by decide⟩
+
+/-! ## the "if" half: a well-formed value is decoded to its coercion -/
+
+open Candid.De in
+/-- **Decoding a well-formed value at an expected type is the specification's coercion** (mirror `De.deAny` of
+`deserialize_any` under the `IDLValue` visitor, with back-tracking; specification `Wire.coerce`, the relation
+`v : w ~> v' : e` as a function, in the reading the implementation follows at an expected option cycle, KF-C04-mu-opt).
+For every environment, every wire type `w` and expected type `e` such that within reach of either there is no function
+or service reference, no placeholder, and records and variants list their fields by strictly ascending id (`OKW`,
+`OKE`: what the header parser guarantees of a type table and the checker of a program; on the wire a variant case of
+type `null` is spelled `null`), every canonical value `v` of `w` (`canon`), the bytes the value writer produces for
+`v` followed by any `r`, a decoder state with nothing metered and an input shorter than 2⁶⁴/11 bytes, and **every pair
+of depth budgets** `n`, `m`: unless one of the two runs out of its budget (`err limit`),
+
+* the coercion returns `v'` and the decoder returns `v'`, leaving exactly `r` and the rest of its state untouched, or
+* the coercion fails with a subtype error and the decoder fails with a subtype error — the kind an enclosing option
+  catches, on both sides, to read `null` —, or
+* both fail otherwise, or both hit a panic site.
+
+Not covered: reference types (their check is C05's), non-minimal (padded) LEB128 in the input, which the value writer
+never produces, and the argument sequence around the values (correspondence only). -/
+theorem decoding_a_wellformed_value_is_its_coercion (env : Env) (m n : Nat) (w e : Ty) (v : Val) (cf sf : Nat)
+    (bs r : Bytes) (s : St) (hc : canon env cf v w = true) (hs : serVal sf v = .ok bs) (hin : s.input = bs ++ r)
+    (hu : Unmetered s) (hw : OKW env w) (he : OKE env e) (hsm : Small s) :
+    CoRel (coerce env false env n w e v) (deAny env .idl m w e s) s r :=
+  typed_read env m n w e v cf sf bs r s hc hs hin hu hw he hsm
+
+open Candid.De in
+/-- read off: what the coercion returns, the decoder returns, and leaves what followed -/
+theorem coercible_value_is_accepted_with_its_coercion (env : Env) (m n : Nat) (w e : Ty) (v v' : Val) (cf sf : Nat)
+    (bs r : Bytes) (s : St) (hc : canon env cf v w = true) (hs : serVal sf v = .ok bs) (hin : s.input = bs ++ r)
+    (hu : Unmetered s) (hw : OKW env w) (he : OKE env e) (hsm : Small s)
+    (hco : coerce env false env n w e v = .ok v') :
+    deAny env .idl m w e s = .err .limit ∨ deAny env .idl m w e s = .ok v' { s with input := r } := by
+  rcases typed_read env m n w e v cf sf bs r s hc hs hin hu hw he hsm with h | h | h
+  · rw [hco] at h; simp at h
+  · exact Or.inl h
+  · rw [hco] at h
+    cases hd : deAny env .idl m w e s with
+    | ok v'' s1 => rw [hd] at h; right; rw [h.1, h.2]; rfl
+    | sub _ _ => rw [hd] at h; exact absurd h (by simp)
+    | err _ => rw [hd] at h; exact absurd h (by simp)
+    | panic _ => rw [hd] at h; exact absurd h (by simp)
+
+open Candid.De in
+/-- … what does not coerce is rejected with the error an enclosing option catches -/
+theorem incoercible_value_is_a_subtype_failure (env : Env) (m n : Nat) (w e : Ty) (v : Val) (cf sf : Nat)
+    (bs r : Bytes) (s : St) (hc : canon env cf v w = true) (hs : serVal sf v = .ok bs) (hin : s.input = bs ++ r)
+    (hu : Unmetered s) (hw : OKW env w) (he : OKE env e) (hsm : Small s)
+    (hco : coerce env false env n w e v = .err .subtype) :
+    deAny env .idl m w e s = .err .limit ∨ deAny env .idl m w e s = .sub none none := by
+  rcases typed_read env m n w e v cf sf bs r s hc hs hin hu hw he hsm with h | h | h
+  · rw [hco] at h; simp at h
+  · exact Or.inl h
+  · rw [hco] at h
+    cases hd : deAny env .idl m w e s with
+    | sub dq sq => rw [hd] at h; right; rw [h.2.1, h.2.2]
+    | ok _ _ => rw [hd] at h; exact absurd h (by simp)
+    | err _ => rw [hd] at h; simp at h
+    | panic _ => rw [hd] at h; exact absurd h (by simp)
+
+open Candid.De in
+/-- … and conversely: what the decoder returns for a well-formed value is what the coercion returns -/
+theorem accepted_value_is_the_coercion (env : Env) (m n : Nat) (w e : Ty) (v v' : Val) (cf sf : Nat)
+    (bs r : Bytes) (s s1 : St) (hc : canon env cf v w = true) (hs : serVal sf v = .ok bs) (hin : s.input = bs ++ r)
+    (hu : Unmetered s) (hw : OKW env w) (he : OKE env e) (hsm : Small s)
+    (hd : deAny env .idl m w e s = .ok v' s1) :
+    coerce env false env n w e v = .err .limit ∨ (coerce env false env n w e v = .ok v' ∧ s1 = { s with input := r }) := by
+  rcases typed_read env m n w e v cf sf bs r s hc hs hin hu hw he hsm with h | h | h
+  · exact Or.inl h
+  · rw [hd] at h; simp at h
+  · rw [hd] at h
+    cases hco : coerce env false env n w e v with
+    | ok v'' => rw [hco] at h; right; exact ⟨by rw [h.1], h.2⟩
+    | err _ => rw [hco] at h; exact absurd h (by simp)
+    | panic _ => rw [hco] at h; exact absurd h (by simp)
+
+open Candid.De in
+/-- **skipping a well-formed value consumes exactly its bytes** (`deserialize_ignored_any`, what an option that
+backtracks, a record with surplus fields and `reserved` rely on), at every depth budget -/
+theorem skipping_a_wellformed_value_consumes_it (env : Env) (m : Nat) (w : Ty) (v : Val) (cf sf : Nat) (bs r : Bytes) (s : St)
+    (hc : canon env cf v w = true) (hs : serVal sf v = .ok bs) (hin : s.input = bs ++ r) (hu : Unmetered s)
+    (hw : OKW env w) (hsm : Small s) :
+    deIgnored env m w s = .err .limit ∨ ∃ x, deIgnored env m w s = .ok x { s with input := r } :=
+  (skip_all env m).1 w v cf sf bs r s hc hs hin hu hw hsm
+
+open Candid.De in
+/-- the hypotheses on the types can be checked by evaluation: it is enough that everything written in the type and in
+the definitions of the environment meets the head conditions -/
+theorem type_conditions_by_evaluation (env : Env) (w e : Ty)
+    (h1 : allEnv (fun t => headOK t && unitLit env t) env = true) (h2 : allTy (fun t => headOK t && unitLit env t) w = true)
+    (h3 : allEnv headOK env = true) (h4 : allTy headOK e = true) : OKW env w ∧ OKE env e :=
+  ⟨okw_of_all env w h1 h2, oke_of_all env e h3 h4⟩
+
+open Candid.De in
+/-- non-vacuity: a record with a variant inside on the wire, an extended record expected, a canonical value, its bytes -/
+example :
+    let w : Ty := .record (.cons (.id 0) (.prim .nat) (.cons (.id 2) (.variant (.cons (.id 5) (.prim .null) .nil)) .nil))
+    let e : Ty := .record (.cons (.id 0) (.prim .int) (.cons (.id 1) (.opt (.prim .text)) .nil))
+    let v : Val := .record [(.id 0, .nat 7), (.id 2, .variant (.id 5) .null 0)]
+    allTy (fun t => headOK t && unitLit [] t) w = true ∧ allTy headOK e = true ∧ canon [] 5 v w = true ∧
+      (∃ bs, serVal 5 v = .ok bs) ∧
+      coerce [] false [] 5 w e v = .ok (.record [(.id 0, .int 7), (.id 1, .none)]) := by
+  refine ⟨by decide, by decide, by decide, ⟨_, rfl⟩, by rfl⟩
+
+/-! ## … and whole messages -/
+
+open Candid.De in
+/-- **A message the writer produced is decoded exactly as the specification prescribes** (mirror
+`De.decodeWithConfig` of `IDLArgs::from_bytes_with_types`, no quota configured; specification `Wire.decodeArgs`:
+parse the header, read the values with `M⁻¹`, coerce the argument sequence, in the implementation's reading of option
+cycles and of reference types, neither of which occurs here).  For every byte string with a header the parser
+accepts, every caller environment and non-empty sequence of expected types, when what follows the header is what the
+value writer produces for canonical values `vs` of the declared argument types (one per type, nothing after them),
+the declared and the expected types meet the conditions of `decoding_a_wellformed_value_is_its_coercion`, the working
+environment has fewer than 99 998 entries and the body is shorter than 2⁶⁴/11 bytes: unless one side runs out of its
+depth budget, both return the same values — the coerced arguments, `null` for expected arguments the message does not
+have, surplus arguments skipped — or both fail. -/
+theorem decoding_a_written_message_is_the_specification (bs : Bytes) (env : Env) (expected : List Ty) (hd : Header)
+    (body : Bytes) (vs : List Val) (cf sf : Nat) (bss : List Bytes) (hp : parseHeader bs = .ok (hd, body))
+    (hne : expected.isEmpty = false) (hl : vs.length = hd.args.length)
+    (hc : ∀ p ∈ vs.zip hd.args, canon (mergeEnv hd.table env expected).1 cf p.1 p.2 = true)
+    (hm : mapOutcomes (serVal sf) vs = .ok bss) (hb : body = bss.flatten)
+    (hokw : ∀ w ∈ hd.args, OKW (mergeEnv hd.table env expected).1 w)
+    (hoke : ∀ e ∈ (mergeEnv hd.table env expected).2, OKE (mergeEnv hd.table env expected).1 e)
+    (hlen : (mergeEnv hd.table env expected).1.length + 2 ≤ De.defaultFuel) (hsm : body.length * 11 ≤ usizeMax)
+    (hcf : cf ≤ Wire.defaultFuel) (hsf : sf ≤ Wire.defaultFuel) :
+    ArgRel (decodeArgs bs env expected false false) (decodeWithConfig bs env expected ⟨none, none⟩) := by
+  rw [spec_decode_written bs env expected hd body vs cf sf bss hp hl hc hm hb hcf hsf]
+  exact message_rel bs env expected hd body vs cf sf Wire.defaultFuel bss hp hne hl hc hm hb hokw hoke hlen hsm
+
+open Candid.De in
+/-- the argument sequence on its own, at every budget of the coercion -/
+theorem decoding_written_arguments_is_their_coercion (env : Env) (hlen : env.length + 2 ≤ De.defaultFuel) (n : Nat)
+    (es ws : List Ty) (vs : List Val) (cf sf : Nat) (bss : List Bytes) (s : St)
+    (hl : vs.length = ws.length) (hc : ∀ p ∈ vs.zip ws, canon env cf p.1 p.2 = true)
+    (hm : mapOutcomes (serVal sf) vs = .ok bss) (hin : s.input = bss.flatten) (hu : Unmetered s)
+    (hokw : ∀ w ∈ ws, OKW env w) (hoke : ∀ e ∈ es, OKE env e) (hsm : Small s) :
+    ArgRel (coerceArgs env n false env ws vs es) (argLoop env es ws s []) := by
+  have := args_rel env hlen n es ws vs cf sf bss s [] hl hc hm hin hu hokw hoke hsm
+  have hid : (fun (x : List Val) => ([] : List Val).reverse ++ x) = id := by funext x; simp
+  rw [hid] at this
+  have hmap : ∀ (x : Outcome (List Val)), x.map id = x := by intro x; cases x <;> rfl
+  rw [hmap] at this
+  exact this
+
+/-! ## the "if" half on every well-formed input (padded LEB128 included) -/
+
+open Candid.De in
+/-- **Decoding any well-formed value at an expected type is the specification's coercion.**  The same statement as
+`decoding_a_wellformed_value_is_its_coercion` with "the bytes the writer produces for `v`" replaced by "any input from
+which the specification's reader `M⁻¹` (`Wire.decVal`, at some nesting budget `f`) reads `v` and leaves `r`" — so
+numbers, lengths and variant indices in non-minimal (padded) LEB128 are covered too.  Unless one side runs out of its
+depth budget, the decoder returns the coercion of `v` and leaves exactly `r`, or both report a subtype failure, or
+both fail. -/
+theorem decoding_any_wellformed_value_is_its_coercion (env : Env) (m n : Nat) (w e : Ty) (v : Val) (f : Nat)
+    (r : Bytes) (s : St) (hd : decVal env f w s.input = .ok (v, r)) (hu : Unmetered s) (hw : OKW env w) (he : OKE env e)
+    (hsm : Small s) : CoRel (coerce env false env n w e v) (deAny env .idl m w e s) s r :=
+  typed_read_w env m n w e v f r s hd hu hw he hsm
+
+open Candid.De in
+/-- skipping any well-formed value consumes exactly what the specification's reader consumes -/
+theorem skipping_any_wellformed_value_consumes_it (env : Env) (m : Nat) (w : Ty) (v : Val) (f : Nat) (r : Bytes) (s : St)
+    (hd : decVal env f w s.input = .ok (v, r)) (hu : Unmetered s) (hw : OKW env w) (hsm : Small s) :
+    deIgnored env m w s = .err .limit ∨ ∃ x, deIgnored env m w s = .ok x { s with input := r } :=
+  (skip_all_w env m).1 w v f r s hd hu hw hsm
+
+open Candid.De in
+/-- **Every well-formed message is decoded exactly as the specification prescribes** (no quota configured): for every
+byte string whose header the parser accepts and whose body the specification's reader reads as values `vs` of the
+declared argument types with nothing left over, every caller environment and non-empty sequence of expected types,
+under the conditions on the types of `decoding_a_wellformed_value_is_its_coercion`: unless one side runs out of its
+depth budget, `De.decodeWithConfig` and the specification's `Wire.decodeArgs` return the same values, or both fail.
+Together with `decoder_accepts_only_wellformed_messages` (what the decoder accepts is such a message) this is the
+property on the first-order fragment: the decoder succeeds exactly on the well-formed messages whose values coerce,
+and returns exactly the coerced values. -/
+theorem decoding_a_wellformed_message_is_the_specification (bs : Bytes) (env : Env) (expected : List Ty) (hd : Header)
+    (body : Bytes) (vs : List Val) (hp : parseHeader bs = .ok (hd, body)) (hne : expected.isEmpty = false)
+    (hda : decArgs (mergeEnv hd.table env expected).1 Wire.defaultFuel hd.args body = .ok (vs, []))
+    (hokw : ∀ w ∈ hd.args, OKW (mergeEnv hd.table env expected).1 w)
+    (hoke : ∀ e ∈ (mergeEnv hd.table env expected).2, OKE (mergeEnv hd.table env expected).1 e)
+    (hlen : (mergeEnv hd.table env expected).1.length + 2 ≤ De.defaultFuel) (hsm : body.length * 11 ≤ usizeMax) :
+    ArgRel (decodeArgs bs env expected false false) (decodeWithConfig bs env expected ⟨none, none⟩) := by
+  rw [spec_decode_accepted bs env expected hd body vs hp hda]
+  exact message_rel_w bs env expected hd body vs Wire.defaultFuel Wire.defaultFuel hp hne hda hokw hoke hlen hsm
+
+open Candid.De in
+/-- non-vacuity: a padded length and a padded number are read by the specification's reader (`vec nat`, one element,
+the length written as `0x81 0x00`, the number 5 as `0x85 0x00`) -/
+example : decVal [] 3 (.vec (.prim .nat)) [0x81, 0x00, 0x85, 0x00, 0xff] = .ok (.vec [.nat 5], [0xff]) := by rfl
 
 end Candid.Props.C02
